@@ -124,9 +124,35 @@ def meta_fault_worlds(tier, seed):
         w.threads = 1
         w.resize = i % 3 == 0
         for k in range(12 if tier == "quick" else 40):
-            v = copy.copy(w); v.meta_faults = [k]; v.tag = "metadata fault"; v.has_truth = False
+            v = copy.copy(w); v.meta_faults = [k]; v.tag = "metadata fault"
             out.append(v)
     return out
+
+def check_meta_faults(cases):
+    """C13 on the unlogged metadata queries: a query that fails for ONE directory-walk entry may cost at most that entry.
+    The run with the fault must recover at least what a fault-free run recovers on the same tree WITHOUT that file (an
+    oracle made of the implementation itself, on a world the model follows operation for operation)."""
+    import copy
+    for c in cases:
+        r = c.result
+        if r is None or r.world.tag != "metadata fault" or r.result != "ok":
+            continue
+        hit = [l.split() for l in r.stdout.split("\n") if l.startswith("LOG meta ")]
+        if not hit or len(hit[0]) < 5:
+            continue
+        p = W.rel(r.root, hit[0][4])
+        w = r.world
+        if p not in w.files or (p[:len(w.export)] == w.export):
+            continue            # a directory entry (skipped anyway) or an export image (not a candidate removal)
+        v = copy.copy(w); v.meta_faults = []; v.files = {q: x for q, x in w.files.items() if q != p}; v.tag = "without " + repr(p)
+        ok = False
+        for _ in range(3):
+            base = W.execute(v)
+            if recovered(w, {q: x[0] for q, x in base.after_files.items()}) <= recovered(w, {q: x[0] for q, x in r.after_files.items()}):
+                ok = True; break
+        if not ok:
+            c.fails = c.fails + ["c02-walk-fault-not-confined"]
+    return cases
 
 def partial_write_worlds(tier, seed, stream="partial"):
     """a disk that fills up: every data write of small worlds stores only some of its bytes and then fails"""
@@ -326,12 +352,20 @@ PROPS = {
                                     + [W.gen_world_shrinking_candidate(Rng(s, "c02-shrink", i)) for i in range(12 if t == "quick" else 240)]
                                     + [W.gen_world_big_files(Rng(s, "c02-big", i)) for i in range(4 if t == "quick" else 40)]
                                     + [W.gen_world_two_devices(Rng(s, "c02-dev", i)) for i in range(8 if t == "quick" else 80)]
-                                    + worlds_default(t, s, "c02", 400, 8000, tweak_threads)),
+                                    + meta_fault_worlds(t, s)
+                                    + worlds_default(t, s, "c02", 400, 8000, tweak_threads), post=check_meta_faults),
     "C03": dict(module="TB.Props.C03", theorems=["C03_confined", "C03_readonly", "C03_plain"], clauses=["c03-"], worlds=lambda t, s: worlds_default(t, s, "c03", 300, 6000, tweak_threads) + fault_worlds(t, s),
                 unit_stream=lambda t, s: unit.load_stream("quick", s)[: 3000 if t == "quick" else 8000]),
     "C04": dict(module="TB.Props.C04", theorems=["C04_export_first", "C04_skip", "C04b_untouched"], clauses=["c04-"],
                 worlds=lambda t, s: [W.gen_world_cross_seed(Rng(s, "c04-cross", i)) for i in range(40 if t == "quick" else 800)]
                                     + worlds_default(t, s, "c04", 300, 6000, tweak_threads)),
+    # C07 at run level: torrents with the same interpreted content and different info bytes (cross-seeds) are DIFFERENT torrents,
+    # each exported under the hex form of its own info-hash; the unit-level stream (hash of the exact info bytes) stays
+    "C07": dict(module="TB.Props.C07", theorems=["C07_span", "C07_indep", "C07_hex_length", "C07_hex_alphabet", "C07_hex_injective"],
+                clauses=["c07-", "c12-", "c02-"],
+                worlds=lambda t, s: [W.gen_world_cross_seed(Rng(s, "c07-cross", i)) for i in range(30 if t == "quick" else 600)]
+                                    + worlds_default(t, s, "c07", 60, 1200),
+                unit_stream=lambda t, s: unit.c07_stream(t, s)),
     "C12": dict(module="TB.Props.C12", theorems=["C12_path", "C12_only_run", "C12_len", "C12_disjoint"], clauses=["c12-"],
                 worlds=lambda t, s: [W.gen_world_dup_path(Rng(s, "c12-dup", 0))] + worlds_default(t, s, "c12", 300, 6000, tweak_threads)
                                     + partial_write_worlds(t, s, "c12-partial")),
@@ -347,7 +381,7 @@ PROPS = {
                                     + [W.gen_world_sparse_candidate(Rng(s, "c16-sparse", i)) for i in range(6)]
                                     + [W.gen_world_c16(Rng(s, "c16", i), i) for i in range(400 if t == "quick" else 8000)],
                 runner=lambda ws: run_with_cli(ws, 66 if len(ws) <= 1000 else 660), with_bin=True),
-    "C13": dict(module="TB.Props.C13", theorems=["C13_all_accounted", "C13_local", "C13_found_all_ok"], clauses=["c13-", "c01-", "c16-", "c12-", "c04-lost"], worlds=lambda t, s: fault_worlds(t, s) + partial_write_worlds(t, s, "c13-partial") + meta_fault_worlds(t, s)),
+    "C13": dict(module="TB.Props.C13", theorems=["C13_all_accounted", "C13_local", "C13_found_all_ok"], clauses=["c13-", "c01-", "c16-", "c12-", "c04-lost", "c02-walk"], worlds=lambda t, s: fault_worlds(t, s) + partial_write_worlds(t, s, "c13-partial") + meta_fault_worlds(t, s), post=check_meta_faults),
     "C11": dict(module="TB.Props.C11", theorems=["C11_replay", "C11_prefix_sound"], clauses=["c11-", "c02-", "c01-"], worlds=crash_worlds, runner=run_crash_cases),
     "C17": dict(module="TB.Props.C17", theorems=["C17_dedup_perm"], clauses=["c17-", "c01-", "c02-", "c03-", "c04-", "c12-"], worlds=meta_worlds, post=compare_groups),
 }
